@@ -1,5 +1,6 @@
 import TcVerif.Driver.Util
 import TcVerif.Model.SyncMachine
+import TcVerif.Generated.Facts
 /-!
 # Driver, family `hist`: histories of commits and syncs (sequential, stepped, aborted)
 
@@ -25,7 +26,8 @@ structure HState where
   keys : List String := []
   nreps : Nat := 0
 
-def limit : Nat := 1000000
+/-- the batch limit literal of `sync.rs`, extracted from the source on every run -/
+def limit : Nat := Facts.batchLimit
 
 def parseUrg : String → Urgency
   | "h" => .high
@@ -76,14 +78,6 @@ def guarded (st : HState) (r : Nat) (op : SyncOp) : HState × List String :=
   else if valid (st.sys.reps r).T op then
     ({ st with sys := st.sys.commit r [op] 0 }, ["ok"])
   else (st, ["skip"])
-
-def splitOpsAux : List String → List String → List (List String)
-  | [], cur => if cur = [] then [] else [cur.reverse]
-  | t :: ts, cur =>
-    if t = ";" then (if cur = [] then splitOpsAux ts [] else cur.reverse :: splitOpsAux ts [])
-    else splitOpsAux ts (t :: cur)
-
-def splitOps (toks : List String) : List (List String) := splitOpsAux toks []
 
 def stepLine (st : HState) (line : String) : HState × List String :=
   match line.trimAscii.toString.splitOn " " with
@@ -146,12 +140,15 @@ def stepLine (st : HState) (line : String) : HState × List String :=
     let reps := (List.range st.nreps).map fun r =>
       let x := S.reps r
       s!"rep {r} base={x.k} nops={x.L.length} tasks={canonDB st.uuids st.keys x.T}"
+    let pends := (List.range st.nreps).map fun r =>
+      let x := S.reps r
+      s!"pend {r} {x.L.length}" ++ String.join (x.L.map fun o => " ; " ++ opToks o)
     let chain := (List.range S.chain.length).map fun i =>
-      s!"v{i+1} {fmtOps (S.chain.getD i [])}"
+      s!"v{i+1} {String.ofList (Json.printVersion (S.chain.getD i []))}"
     let snap := match S.snap with
       | none => "snap none"
       | some (v, d) => s!"snap {v} {canonDB st.uuids st.keys d}"
-    (st, reps ++ [s!"chain len={S.chain.length}"] ++ chain ++ [snap])
+    (st, reps ++ pends ++ [s!"chain len={S.chain.length}"] ++ chain ++ [snap])
   | [""] => (st, [])
   | _ => (st, ["bad-op"])
 
